@@ -323,8 +323,9 @@ class ShaderSpec:
         layouts = {}
         for n in self.structs:
             sd = self.structs[n]
-            if any(m["ty"][0] == "s" and m["ty"][1] == "bool" for m in sd.members):
-                continue
+            if any(m["ty"][0] == "s" and m["ty"][1] == "bool" for m in sd.members) or \
+                    W.contains_kind(W.ST(n), self.structs, ("bool",)):
+                continue  # bool has no WGSL layout
             try:
                 layouts[n] = W.struct_layout(sd, self.structs)
             except Exception:
